@@ -347,6 +347,53 @@ Lemma valid_thunk_skip_empty_agrees_nonempty r client b v :
   valid_thunk_skip_empty r client (b :: v) = valid_thunk r client (b :: v).
 Proof. reflexivity. Qed.
 
+(* input ids: exactly the ids up to and including kMaximumInputID are the client's, and each of them is delivered *)
+Lemma capi_input_id_ok_spec id : capi_input_id_ok id = true <-> id <= kMaximumInputID.
+Proof. unfold capi_input_id_ok. apply N.leb_le. Qed.
+
+Lemma capi_accepted_id_delivered e t ti key rest id v :
+  id <= kMaximumInputID ->
+  option_map view (request_then_provide e t ti (data_of key rest) id v) = Some (VProvideValue (ct_context t) e ti id v).
+Proof.
+  intros H. unfold request_then_provide. rewrite forward_needs_input.
+  apply capi_input_id_ok_spec in H. rewrite H. rewrite backward_provide_value, ti_out_in. reflexivity.
+Qed.
+
+Lemma capi_reserved_id_rejected e t ti key id v : kMaximumInputID < id -> request_then_provide e t ti key id v = None.
+Proof.
+  intros H. unfold request_then_provide. cbn [forward]. unfold capi_input_id_ok.
+  destruct (N.leb_spec id kMaximumInputID) as [L|_]; [lia|reflexivity].
+Qed.
+
+Lemma backward_provide_guard_ge_refuted :
+  exists e t ti id key v, capi_input_id_ok id = true /\ backward_provide_guard_ge e t ti id key v = None /\
+                          backward e (BProvideValue t ti id key v) <> None.
+Proof.
+  exists 0, (mkCTask 0), (mkTi 1 2), kMaximumInputID, [97], [1]. split; [reflexivity|]. split; [reflexivity|discriminate].
+Qed.
+
+Lemma backward_provide_guard_ge_agrees_below e t ti id key v :
+  id < kMaximumInputID -> backward_provide_guard_ge e t ti id key v = backward e (BProvideValue t ti id key v).
+Proof.
+  intros H. unfold backward_provide_guard_ge. destruct (N.leb_spec kMaximumInputID id) as [L|_]; [lia|reflexivity].
+Qed.
+
+Example ex_max_id_delivered :
+  option_map view (request_then_provide 3 (mkCTask 4) (mkCTi 1 2) (data_of [105; 0] [0]) kMaximumInputID [9])
+  = Some (VProvideValue 4 3 (mkCTi 1 2) 18446744073709551360 [9]).
+Proof. vm_compute. reflexivity. Qed.
+
+Lemma capi_status_all_forwarded e ec key r ss :
+  cr_has_status r = true ->
+  status_trace e (wrap_rule ec key r) ss = map (fun s => Some (VUpdateStatus (cr_context r) ec s)) ss.
+Proof.
+  intros H. unfold status_trace. apply map_ext. intros s. apply backward_update_status. exact H.
+Qed.
+
+(* scanning (0) reported in a build abandoned on a cycle, scanning again in the next build: the second one would be lost *)
+Lemma dedup_statuses_refuted : exists ss, dedup_statuses None ss <> ss.
+Proof. exists [0; 0; 2]. vm_compute. discriminate. Qed.
+
 Lemma build_result_exact v : copy_n (build_result v) = v.
 Proof. apply copy_n_out_vector. Qed.
 
